@@ -19,6 +19,9 @@ def setup():
             mod.pre_build()
     for p in props:
         targets += ["theories/%s/Corr.vo" % p, "theories/Props/%s.vo" % p]
+    from . import driver
+    if any(p in driver.TRANSLATED_TIE for p in props):
+        targets.append("theories/Core/TranslatedTie.vo")
     ok, log = vlib.make(targets)
     print(log[-3000:])
     if not ok:
